@@ -254,7 +254,7 @@ Qed.
    (for ANY cell conversion / palette plan), merge_layer_down, anchor_layer, stamp_layer_down, paste_clipboard_data,
    add_selection_to_mask, inverse_selection, enumerate_selections (ANY callback), clear_selection, erase_selection and the nine
    row / column wrappers reading the selection mask, rotate_layer (ANY character table), scroll_area_up / down over the whole
-   layer width — is a sound edit whenever it is applied OUTSIDE its known class K (a predicate on the state it is applied to).
+   layer width, insert / delete row and column — is a sound edit whenever it is applied OUTSIDE its known class K (a predicate on the state it is applied to).
    Since the fix commits for the four font / SAUCE findings EVERY constructor of xmodelled carries K = `never` (= fun _ => False):
    the premise ~ K (cur e) is trivially true (x_api_sound_everywhere) *)
 Theorem x_api_sound : forall f K, xmodelled f K ->
@@ -291,20 +291,32 @@ Theorem resize_sauce_size_before_fix_refuted :
   before_fix_refuted (x_resize_buffer 3 1) (wit_doc [(0, 1)]%N (Some (mkSauce 7 3 5)) 0 0) (XResizeBuffer 4 2 3 1 None).
 Proof. exact resize_sauce_size_before_fix_refuted_proof. Qed.
 
-(* insert / delete row and column (known finding C08-rowcol-raw-lines): undoing such a record from EXACTLY the state its redo
-   produced restores the document, but the record is not invariant under xeqv: from an equivalent state that stores its rows in
-   another shape the undo panics, so these records cannot take part in x_undo_redo_history *)
-Theorem rowcol_exact_roundtrip : forall o a o1 b, is_rowcol o -> xop_redo o a = Ok (o1, b) ->
-  exists o2 a', xop_undo o1 b = Ok (o2, a') /\ xeqv a' a.
-Proof. exact rowcol_exact_roundtrip_proof. Qed.
+(* insert / delete row and column (finding C08-rowcol-raw-lines, repaired): the four records are closed under undo / redo from ANY
+   equivalent state, whatever rows and cells it happens to store; the payloads (deleted row, inserted row, deleted column) are
+   re-captured on every redo / undo and are related to the document by their cells only *)
+Theorem rowcol_operations_sound :
+  lclosed xop_undo xop_redo xeqv U_delrow R_delrow /\ lclosed xop_undo xop_redo xeqv U_insrow R_insrow /\
+  lclosed xop_undo xop_redo xeqv U_delcol R_delcol /\ xstable P_inscol.
+Proof. exact (conj delrow_closed (conj insrow_closed (conj delcol_closed inscol_stable))). Qed.
 
-Theorem rowcol_not_invariant :
-  exists a o1 b t,
+(* what each direction does, cell by cell (x, y are positions in the stored rows, inside and outside `size`) *)
+Theorem rowcol_cells :
+  (forall n L x y, rawL (del_row n L) x y = if (y <? n)%nat then rawL L x y else rawL L x (S y)) /\
+  (forall n row L x y, rawL (ins_row n row L) x y = if (y <? n)%nat then rawL L x y else if (y =? n)%nat then cell_at row x else rawL L x (pred y)) /\
+  (forall col L x y, rawL (del_col col L) x y = match col with Some c => if (x <? c)%nat then rawL L x y else rawL L (S x) y | None => rawL L x y end) /\
+  (forall col L x y, rawL (ins_col col L) x y =
+     match col with Some c => if (x <? c)%nat then rawL L x y else if (x =? c)%nat then invisible else rawL L (pred x) y | None => rawL L x y end).
+Proof. exact (conj del_row_raw (conj ins_row_raw (conj del_col_raw ins_col_raw))). Qed.
+
+(* before the fix commit the undo worked on the rows that happened to be stored: from a state that holds the same cells as the one the
+   redo produced but stores fewer rows, DeleteRow::undo panicked in Vec::insert (site 40); the repaired undo restores the document *)
+Theorem rowcol_before_fix_refuted :
+  exists a b t,
     a = rc_state [[rc_cell]; []; []] 3 /\
-    xop_redo (XDeleteRow 0 2 []) a = Ok (o1, b) /\ xeqv t b /\
-    (exists o2 a', xop_undo o1 b = Ok (o2, a') /\ xeqv a' a) /\
-    xop_undo o1 t = Panic 40.
-Proof. exact rowcol_not_invariant_proof. Qed.
+    xop_redo (XDeleteRow 0 2 []) a = Ok (XDeleteRow 0 2 [], b) /\ xeqv t b /\
+    old_delete_row_undo 0 2 [] t = Panic 40 /\
+    (exists o2 a', xop_undo (XDeleteRow 0 2 []) t = Ok (o2, a') /\ xeqv a' a).
+Proof. exact rowcol_before_fix_refuted_proof. Qed.
 
 (* Non-vacuity: a history over the full document (palette switch, set_char, paste, merge down, resize with layers, add font,
    ice mode) satisfies the premises of x_undo_redo_history and changes palette, layers, size, font table and mode *)
@@ -332,3 +344,24 @@ Qed.
 
 Example xex_fresh : fresh (wit_doc [(0, 1)]%N None 3 0).
 Proof. split; reflexivity. Qed.
+
+(* a history with the four row / column operations on a ragged layer (one stored row of two cells in a 4x2 layer, caret at (1, 0)):
+   the row of cells is deleted, an empty one inserted *)
+Definition xex_rc_doc : XE :=
+  mkEs (mkX (mkE 4 2 [mkLayer 0 true false false false false 0 0 0 4 2 (10, 0)%N [[xex_cell; xex_cell]]] 0 None false 1 0)
+            [0%N; 170%N] [(0, 1)]%N None 0 1 0 0 (mkMask 4 2 [])) [] [].
+Definition xex_rc_hist : list (XE -> res XE) := [x_insert_column; x_delete_row; x_delete_column; x_insert_row; x_set_palette_mode_gen (fun _ s => Ok (x_pal s, xlayers s)) 0].
+
+Example xex_rc_hist_runs : exists en, xrun xex_rc_hist xex_rc_doc en /\ length (ustk en) = 5%nat /\
+  (forall L, nth_error (xlayers (cur en)) 0 = Some L -> l_lines L = [[]; []]).
+Proof.
+  eexists. split.
+  - unfold xex_rc_hist.
+    eapply xrun_cons; [apply xm_insert_column|intros []|vm_compute; reflexivity|].
+    eapply xrun_cons; [apply xm_delete_row|intros []|vm_compute; reflexivity|].
+    eapply xrun_cons; [apply xm_delete_column|intros []|vm_compute; reflexivity|].
+    eapply xrun_cons; [apply xm_insert_row|intros []|vm_compute; reflexivity|].
+    eapply xrun_cons; [apply xm_set_palette_mode|intros []|vm_compute; reflexivity|].
+    apply xrun_nil.
+  - split; [reflexivity|]. intros L H. vm_compute in H. injection H as <-. reflexivity.
+Qed.
